@@ -135,6 +135,8 @@ func scalarLines(ind, key, scope, status, kind string) []string {
 		return one(`"foo bar"`)
 	case "badPromql":
 		return one("sum(")
+	case "blank":
+		return one(`" "`)
 	}
 	panic(fmt.Sprintf("schemadoc: unknown scalar status %q for %s.%s", status, scope, key))
 }
@@ -198,6 +200,10 @@ func mapLines(ind, key, status string) []string {
 		return block(in + item + `: "{{ .Nope }}"`)
 	case "valueTemplate":
 		return block(in + item + `: "{{ $value }}"`)
+	case "tierBadTemplate":
+		return block(in+item+": "+okv, in+`tier: "{{ $nope }}"`)
+	case "tierValueTemplate":
+		return block(in+item+": "+okv, in+`tier: "{{ $value }}"`)
 	case "valBadUtf8":
 		return block(in + item + ": \"a\xffb\"")
 	case "tplUnknownFunc":
